@@ -35,6 +35,10 @@ type UDPSession struct {
 	MaxSize  uint32
 	WriteErr error // returned by WriteMessage when set
 	OnWrite  func(data []byte)
+	// RunExitDelay > 0 switches to the structure of the real sessions: Close() only cancels the context; the done signal
+	// is completed and the on-close callbacks run when Run returns, which happens RunExitDelay after the context ended
+	// (a socket reader that notices the cancellation at its next read heartbeat). Run must then be started (NewUDPConn does).
+	RunExitDelay time.Duration
 }
 
 func NewUDPSession(maxSize uint32) *UDPSession {
@@ -45,6 +49,10 @@ func NewUDPSession(maxSize uint32) *UDPSession {
 func (s *UDPSession) Context() context.Context { s.mu.Lock(); defer s.mu.Unlock(); return s.ctx }
 
 func (s *UDPSession) Close() error {
+	if s.RunExitDelay > 0 {
+		s.cancel()
+		return nil
+	}
 	s.mu.Lock()
 	if s.closed {
 		s.mu.Unlock()
@@ -90,7 +98,24 @@ func (s *UDPSession) WriteMulticastMessage(req *pool.Message, _ *net.UDPAddr, _ 
 	return s.WriteMessage(req)
 }
 
-func (s *UDPSession) Run(*client.Conn) error { <-s.done; return nil }
+func (s *UDPSession) Run(*client.Conn) error {
+	if s.RunExitDelay == 0 {
+		<-s.done
+		return nil
+	}
+	<-s.Context().Done()
+	time.Sleep(s.RunExitDelay) // the reader leaves its read at the next heartbeat
+	s.mu.Lock()
+	fns := s.onClose
+	s.onClose = nil
+	s.closed = true
+	s.mu.Unlock()
+	for _, f := range fns {
+		f()
+	}
+	close(s.done)
+	return nil
+}
 
 func (s *UDPSession) AddOnClose(f client.EventFunc) {
 	s.mu.Lock()
@@ -123,6 +148,7 @@ type UDPOpts struct {
 	MaxSize          uint32
 	Mutate           func(cfg *client.Config)
 	ConnOpts         []client.Option
+	RunExitDelay     time.Duration // see UDPSession.RunExitDelay
 }
 
 // NewUDPConn builds a real udp/client.Conn over an in-memory session. The pool really pools
@@ -154,6 +180,10 @@ func NewUDPConn(o UDPOpts) (*client.Conn, *UDPSession) {
 			return blockwise.New(cc, to, cfg.Errors, func(token message.Token) (*pool.Message, bool) { return cc.GetObservationRequest(token) })
 		}))
 	}
+	s.RunExitDelay = o.RunExitDelay
 	cc := client.NewConnWithOpts(s, &cfg, opts...)
+	if o.RunExitDelay > 0 {
+		go func() { _ = cc.Run() }()
+	}
 	return cc, s
 }
